@@ -24,7 +24,9 @@ indexing tricks):
 The text-level predicates (`trailingMatch`, `ownLineMatch`, `hasSub IC`) are shared with the
 model: they *define* what an ignore comment is.  Everything else is independent of `showError`.
 
-Also here: the exception class `D11_lineOneWrap` and the scope predicates used as hypotheses.
+Also here: the scope predicates used as hypotheses, and the predicates of the two exception classes
+the code had before its repair (`D11_lineOneWrap`, `D11_splitlinesMismatch`; no class is left —
+the predicates now only delimit the `old_…` regression theorems and are no longer printed by the driver).
 -/
 namespace Pya.C11
 
@@ -167,7 +169,7 @@ def codeIn (S : List String) (r : Raw) : Bool :=
   | some c => S.contains c
   | none => false
 
-/-! ## Scope predicates (hypotheses of the theorems) and the exception class -/
+/-! ## Scope predicates (hypotheses of the theorems) and the former exception classes -/
 
 /-- Every positioned call that obeys ignore comments points into the file (1-based line number);
 what the AST guarantees.  Outside it `show_error` raises IndexError or indexes from the back. -/
@@ -182,7 +184,8 @@ def RawWF (lines : List Line) (raw : List Raw) : Bool := raw.all (wfAt lines)
 def RawAst (raw : List Raw) : Bool :=
   raw.all fun r => match r.node with | .fake _ _ => false | _ => true
 
-/-- **Exception class `lineOneWrap`** (node_visitor.py:662): a diagnostic on line 1 that obeys
+/-- **Former exception class `lineOneWrap`** (repaired by /repo 0cba813; it was
+`prev_line = lines[lineno - 2].strip()` without the `lineno >= 2` guard): a diagnostic on line 1 that obeys
 ignore comments and is not suppressed by its own line, in a file whose *last* line is an own-line
 ignore comment matching it.  `lines[lineno - 2]` is `lines[-1]`: the diagnostic is dropped, and
 `-1` (not the comment's index) is recorded as used. -/
@@ -202,7 +205,8 @@ def isTokBreak (c : Char) : Bool := c == '\n' || c == '\r'
 /-- The physical lines as the tokenizer counts them. -/
 def tokLines (src : List Char) : List Line := splitBy isTokBreak src [] false
 
-/-- **Exception class `splitlinesMismatch`** (node_visitor.py:236): the source contains a character
+/-- **Former exception class `splitlinesMismatch`** (repaired by /repo ba62f49; `_lines()` was
+`contents.splitlines()`): the source contains a character
 that `str.splitlines()` treats as a line boundary and the tokenizer does not (form feed, `\x0b`,
 `\x1c`‥`\x1e`, `\x85`, `\u2028`, `\u2029` — anywhere: as white space, in a comment, in a string
 literal). From there on `lines[lineno - 1]` is not the line the diagnostic is on. -/
